@@ -7,6 +7,11 @@ props = [json.loads(l) for l in open(os.path.join(V, "properties.jsonl"))]
 
 # property id -> (category, technique, level text, level note) ; absent = not claimed (reason in NOT_APPLICABLE)
 CLAIMS = {
+ "C17": ("exploration",
+         "runtime monitoring: process-level monitor of the real binary (stdout bytes, stderr, exit status) against the reference evaluator's output and the same text evaluated through eval_file in the driver",
+         "random displaying programs with an optional run-time fault or syntax error at a random form and an optional library file beside the program are written with LF/CRLF and with/without final newline and run as ruschm FILE from an unrelated working directory holding a decoy library, by absolute and relative path; stdout must equal the reference evaluator's output up to the failing form and the library interface's output, exit status must be 0 iff no form failed, and a failure must give exactly one diagnostic FILE[:LINE:COL] MESSAGE with the library interface's message and a location inside the failing form; missing, directory, empty and non-UTF-8 files are covered.",
+         "mode-000 files are not generated (root reads them anyway); ANSI colour codes are stripped"),
+
  "C18": ("exploration",
          "runtime monitoring: exhaustive comparison of the REPL's submission test (hook H2) with token-level depth from the independent tokenizer; transcript monitor on the real binary over a pipe under random line splittings vs form-by-form evaluation through the library interface",
          "(i) every string up to length 5 (6 thorough) over a bracket/quote/comment alphabet is given to the REPL's own submission test and to an independent tokenizer; (ii) random sessions (core and derived-form programs, failing forms, displays, literals containing brackets) are fed to the built binary over a pipe under 4 line splittings with comments; stdout and stderr must agree across splittings and equal the values, display output and error messages of the same forms evaluated one after another through Interpreter::eval.",
